@@ -67,7 +67,9 @@ def explore(tier, seed):
         # characters that look like encoding artefacts but are ordinary text: U+FEFF as the first character of the text
         # (behind the real BOM) and inside it, U+FFFD (a *genuine* replacement character), U+FFFE, NUL. The reference for
         # these comes from the in-process formatter (no encoding layer at all).
-        special = ["\ufeffa  :=  b ;\n", "a  :=  '\ufeff' ;  //\ufeff\n", "x  :=  '\ufffd' ;  //\ufffd\n", "\ufffd  :=  1 ;", "x  :=  '\ufffe' ;"]
+        long_tail = "a  ;\n{pasfmt off}\n" + "x := " + "y + " * 700 + "z;"          # verbatim last line of ~2.8 KB, no terminator
+        crossing = "// " + "\u00e9" * 9000 + "\n" + ("a  :=  '\u0416\u044f' ;  // \u00e9\u00df\n" * 600)   # non-ASCII across every 16 KiB mark
+        special = [long_tail, crossing, "x" + crossing, "\ufeffa  :=  b ;\n", "a  :=  '\ufeff' ;  //\ufeff\n", "x  :=  '\ufffd' ;  //\ufffd\n", "\ufffd  :=  1 ;", "x  :=  '\ufffe' ;"]
         for text in special:
             for bom in BOMS:
                 for transport in ("file", "stdin"):
